@@ -37,7 +37,7 @@ INSENSITIVE = re.compile(
     r"(as Extend<.*>>::extend.*Hash(Map|Set))|(as FromIterator<.*>>::from_iter.*Hash(Map|Set))")
 
 ENTRY = [("oal-compiler", r"^(module::)?load$"), ("oal-compiler", r"^(compile::)?compile$"), ("oal-compiler", r"^(eval::)?eval$"),
-         ("oal-openapi", r"::into_openapi$"), ("oal-openapi", r"<impl at oal-openapi/src/lib\.rs:25[^>]*>::new$"), ("oal-openapi", r"::with_base$"),
+         ("oal-openapi", r"::into_openapi$"), ("oal-openapi", r"<impl at oal-openapi/src/lib\.rs[^>]*>::new$"), ("oal-openapi", r"::with_base$"),
          ("oal-syntax", r"^parse$")]
 
 PROGRAMS = {
